@@ -105,6 +105,18 @@ def cases(tier, seed):
         if "\n" in s:
             continue
         out.append(("line", s, rng.choice([0, 1, 2, 3]), rng.choice([None, "gfa1", "gfa2"])))
+    # list-size shapes: P lines with 1-4 segments and 0-5 overlaps (all '*', all CIGARs, mixed), with and without their S lines
+    segs = ["a+", "b+", "c-", "d+"]
+    for ns in range(1, 5):
+        for no in range(0, 6):
+            for ovk in ("star", "cigar", "mixed"):
+                ov = ["*" if (ovk == "star" or (ovk == "mixed" and k % 2)) else "1M" for k in range(no)]
+                pl = "P\tp\t%s\t%s" % (",".join(segs[:ns]), ",".join(ov) if ov else "")
+                slines = ["S\t%s\t*" % x[:-1] for x in segs[:ns]]
+                for vlevel in (0, 1, 2, 3):
+                    out.append(("doc", slines + [pl], vlevel))
+                    out.append(("doc", [pl] + slines, vlevel))
+                    out.append(("line", pl, vlevel, "gfa1"))
     nmut = 10 if tier == "quick" else 30
     for version in ("gfa1", "gfa2"):
         cat = universe.CAT[version]
